@@ -2976,7 +2976,7 @@ class PoissonGAM(GAM):
         y : y normalized by exposure
         weights : array-like shape (n_samples,)
         """
-        y = np.ravel(y)
+        y = check_array(np.ravel(y), name='y data', ndim=1, verbose=self.verbose)
 
         if exposure is not None:
             exposure = np.array(exposure).astype('f').ravel()
